@@ -1,8 +1,232 @@
-/- Driver for C03 (stub). -/
-import ControlModel.Basic
+/-
+  Driver for C03. Line = "(live ((crit host)…) victim kind instant)<TAB>implObs", see
+  harness/props/c03. The model's observation is computed under the wall-clock schedule
+  (`Failure.settle`) twice: with the watcher at its receive when the failure's
+  notifications are sent, and with the watcher away. Monitor style: the answer is the
+  variant the implementation's observation equals (the first by default), so a dropped
+  notification shows up as spec = 0 / hyp = notify_dropped, not as a disagreement.
+-/
+import ControlModel.Model.Failure
 
 namespace Driver.C03
+open RoleTree EnvM Failure
 
-def processLine (_line : String) : String := "UNIMPLEMENTED\t0\t-"
+structure Task where
+  crit : Bool
+  host : Nat
+  deriving Repr
+
+structure Scen where
+  live : St
+  tasks : List Task
+  victim : Nat
+  kind : Kind
+  instant : String
+  deriving Repr
+
+def parseTask : SExp → Option Task
+  | .list [c, h] => do pure { crit := (← c.bool?), host := (← h.nat?) }
+  | _ => none
+
+def parseScen (x : SExp) : Option Scen :=
+  match x with
+  | .list [.atom live, .list ts, v, .atom k, .atom inst] => do
+    let l ← St.parse? live
+    if l ≠ .CONFIGURED ∧ l ≠ .RUNNING then none
+    let tasks ← ts.mapM? parseTask
+    let victim ← v.nat?
+    let kind ← Kind.parse? k
+    if victim ≥ tasks.length ∨ tasks.isEmpty then none
+    if !(["idle", "race", "racelate", "raceself", "burst"].contains inst) then none
+    pure { live := l, tasks := tasks, victim := victim, kind := kind, instant := inst }
+  | _ => none
+
+def liveT (l : St) : TState := if l = .RUNNING then .RUNNING else .CONFIGURED
+
+def mkLeaves (ts : TState) : List Task → Forest
+  | [] => .nil
+  | t :: rest => .leaf false t.crit ts .INACTIVE (mkLeaves ts rest)
+
+/-- The role tree as the deployment leaves it: loaded STANDBY/INACTIVE, every task reported
+    ACTIVE, then CONFIGURED (then RUNNING) — through the model's own update functions, so an
+    aggregator nobody forwards to keeps what it was loaded with (C11's barren aggregator). -/
+def deployed (sc : Scen) : Forest :=
+  let n := sc.tasks.length
+  let f0 : Forest := .agg .STANDBY .INACTIVE (mkLeaves .STANDBY sc.tasks) .nil
+  let f0 := (List.range n).foldl (fun f i => (updStatus f [0, i] .ACTIVE).1) f0
+  let f1 := (List.range n).foldl (fun f i => (updState f [0, i] .CONFIGURED).1) f0
+  if sc.live = .RUNNING then (List.range n).foldl (fun f i => (updState f [0, i] .RUNNING).1) f1 else f1
+
+def mkSys (sc : Scen) : Sys :=
+  let reqs : List Req := [.control .DEPLOY true false, .control .CONFIGURE true false] ++
+    (if sc.live = .RUNNING then [.control .START_ACTIVITY true false] else [])
+  { f := deployed sc, env := finalEnv [] sc.tasks.length {} reqs }
+
+def hostOf (sc : Scen) (i : Nat) : Nat := (sc.tasks.getD i { crit := false, host := 0 }).host
+def critOf (sc : Scen) (i : Nat) : Bool := (sc.tasks.getD i { crit := false, host := 0 }).crit
+
+def indices (sc : Scen) : List Nat := List.range sc.tasks.length
+
+/-- Tasks that die: the victim, or everything on its executor / agent (one executor per host). -/
+def victims (sc : Scen) : List Nat :=
+  match sc.kind with
+  | .EXEC | .EXEC0 | .AGENT | .AGENT0 => (indices sc).filter (fun i => hostOf sc i = hostOf sc sc.victim)
+  | _ => [sc.victim]
+
+/-- The task whose reply is held back (same choice as the harness). -/
+def holder (sc : Scen) : Option Nat :=
+  let other := (indices sc).filter (fun i => i ≠ sc.victim ∧ hostOf sc i ≠ hostOf sc sc.victim)
+  match other.getLast? with
+  | some i => some i
+  | none => ((indices sc).filter (fun i => i ≠ sc.victim)).getLast?
+
+def raceEv (l : St) : Ev × TState :=
+  if l = .RUNNING then (.STOP_ACTIVITY, .CONFIGURED) else (.START_ACTIVITY, .RUNNING)
+
+def path (i : Nat) : List Nat := [0, i]
+
+/-- The model's final system for the scenario; `ready` = where the watcher is when the
+    failure's own notifications are sent. -/
+def finalSys (sc : Scen) (ready : Bool) (finishFirst : Bool := false) : Option Sys :=
+  let base := mkSys sc
+  let vs := (victims sc).map (fun i => (path i, ready))
+  let (ev, dst) := raceEv sc.live
+  match sc.instant with
+  | "idle" => some (settle 64 (fail sc.kind base vs))
+  | "race" | "racelate" => do
+    let h ← holder sc
+    if (victims sc).contains h then none   -- the reply that is held back would never come
+    let others := (indices sc).filter (· ≠ h)
+    let s1 := setLeaves base (others.map path) dst true
+    let s2 := { s1 with inflight := some { ev := ev, api := true, pending := [(path h, dst)], ok := true } }
+    pure (settle 64 (fail sc.kind s2 vs))
+  | "raceself" =>
+    let others := (indices sc).filter (· ≠ sc.victim)
+    let s1 := setLeaves base (others.map path) dst true
+    let s2 := { s1 with inflight := some { ev := ev, api := true, pending := [], ok := !(critOf sc sc.victim) } }
+    some (settle 64 (fail sc.kind s2 vs))
+  | "burst" =>
+    let s2 := { base with inflight := some { ev := ev, api := true, pending := (indices sc).map (fun i => (path i, dst)), ok := true } }
+    let s3 := irun s2 ((indices sc).map (fun _ => Label.reply true) ++ (if finishFirst then [Label.finish] else []))
+    some (settle 64 (fail sc.kind s3 vs))
+  | _ => none
+
+def racing (sc : Scen) : Bool := sc.instant != "idle"
+
+def dropToBody : List Step → List Step
+  | [] => []
+  | s :: rest => if isBody s then rest else dropToBody rest
+
+def statusName : RunStatus → String
+  | .started => "STARTED" | .doneOk => "DONE_OK" | .doneError => "DONE_ERROR"
+
+def runEvents (log : List Step) : List SExp :=
+  log.filterMap fun
+    | .runEvent tr st _ _ => some (.list [.atom tr, .atom (statusName st)])
+    | _ => none
+
+def isVal : TV → Bool
+  | .val _ => true
+  | _ => false
+
+def natsSx (xs : List Nat) : SExp := .list (xs.map SExp.ofNat)
+
+def insertNat (x : Nat) : List Nat → List Nat
+  | [] => [x]
+  | y :: ys => if x < y then x :: y :: ys else if x = y then y :: ys else y :: insertNat x ys
+
+def sortNats (xs : List Nat) : List Nat := xs.foldl (fun acc x => insertNat x acc) []
+
+def obsOf (sc : Scen) (s : Sys) : SExp :=
+  let log := if racing sc && (s.log.any isBody) && s.transRes.isSome then dropToBody s.log else s.log
+  let roles := (leaves s.f).map fun l => SExp.list [.atom l.2.1.name, .atom l.2.2.name]
+  let trans := match s.transRes with
+    | none => "-"
+    | some (true, _) => "ok"
+    | some (false, _) => "err"
+  .list [
+    .list [.atom "pre", .atom sc.live.name],
+    .list [.atom "victims", natsSx (victims sc)],
+    .list [.atom "env", .atom s.env.st.name],
+    .list [.atom "root", .atom (rootState s.f).name, .atom (rootStatus s.f).name],
+    .list [.atom "roles", .list roles],
+    .list [.atom "run", .list (runEvents log)],
+    .list [.atom "stamps", SExp.ofBool (isVal s.env.vars.soeor), SExp.ofBool (isVal s.env.vars.eoeor)],
+    .list [.atom "stops", natsSx (sortNats (s.stopped.filterMap fun p => p.getLast?))],
+    .list [.atom "trans", .atom trans]]
+
+/-! ### Spec on what the implementation reported -/
+
+def field (obs : SExp) (name : String) : Option (List SExp) :=
+  match obs with
+  | .list fs => fs.findSome? fun
+    | .list (.atom n :: rest) => if n == name then some rest else none
+    | _ => none
+  | _ => none
+
+def atom1 (obs : SExp) (name : String) : String :=
+  match field obs name with
+  | some (.atom a :: _) => a
+  | _ => "?"
+
+def anyCrit (sc : Scen) : Bool := (victims sc).any (critOf sc)
+
+/-- Environment state expected without any failure: the live state, or the destination of
+    the transition that was in flight. -/
+def undisturbed (sc : Scen) : St :=
+  if racing sc then (if sc.live = .RUNNING then .CONFIGURED else .RUNNING) else sc.live
+
+def specOn (sc : Scen) (impl : SExp) : Bool :=
+  let env := atom1 impl "env"
+  if anyCrit sc then
+    -- ends in ERROR, and if a run was (or became) active its end is recorded
+    let runActive := sc.live = .RUNNING || atom1 impl "trans" == "ok"
+    let stamps := match field impl "stamps" with
+      | some [a, b] => a.bool?.getD false && b.bool?.getD false
+      | _ => false
+    env == "ERROR" && (!runActive || stamps)
+  else
+    env == (undisturbed sc).name
+
+def hypOf (sc : Scen) (impl : SExp) (isBusy : Bool) : String :=
+  let env := atom1 impl "env"
+  if anyCrit sc then
+    if env == "ERROR" then "-"
+    else if sc.kind = .FINISHED then "finished_not_error"
+    else if isBusy ∧ atom1 impl "root" == "ERROR" then "notify_dropped"
+    else if sc.kind = .INTERNAL then "internal_error_ignored_unless_running"
+    else "-"
+  else
+    if sc.kind = .INTERNAL ∧ atom1 impl "env" == "CONFIGURED" then "internal_error_noncritical_stops_run" else "-"
+
+def processLine (line : String) : String :=
+  match SExp.fields line with
+  | [inp, impl] =>
+    match (SExp.parse inp).bind parseScen with
+    | some sc =>
+      match finalSys sc true, finalSys sc false with
+      | some sr, some sb =>
+        let oR := toString (obsOf sc sr)
+        let oB := toString (obsOf sc sb)
+        -- burst: whether the transition ends before or after the failure is handled is not determined
+        let alt (ready : Bool) : String :=
+          if sc.instant == "burst" then
+            match finalSys sc ready true with
+            | some x => toString (obsOf sc x)
+            | none => oR
+          else oR
+        let oR2 := alt true
+        let oB2 := alt false
+        let isBusy := impl != oR && impl != oR2 && (impl == oB || impl == oB2)
+        let model := if impl == oR then oR else if impl == oR2 then oR2 else if impl == oB then oB else if impl == oB2 then oB2 else oR
+        match SExp.parse impl with
+        | some io =>
+          let spec := specOn sc io
+          let hyp := if spec then "-" else hypOf sc io isBusy
+          s!"{model}\t{if spec then 1 else 0}\t{hyp}"
+        | none => s!"{model}\t0\t-"
+      | _, _ => "BADSCENARIO\t0\t-"
+    | none => "BADINPUT\t0\t-"
+  | _ => "BADLINE\t0\t-"
 
 end Driver.C03
